@@ -7,7 +7,7 @@ from .common import *
 
 SETS = ["A", "B", "C", "D"]
 RULE = ("request lists over a closed universe of language tags built from each locale set's own subtags plus "
-        "foreign ones (exhaustive up to length 3 in the thorough tier), random BCP-47-ish and malformed strings, "
+        "foreign ones (exhaustive up to length 3 in the thorough tier), random BCP-47-ish and malformed strings, entries with ASCII white space before / after the tag, "
         "random sub-lists/orders of the supported locales; non-trivial = at least one parseable request and at "
         "least one supported locale matched by some request; distinct = distinct (set, avail, accepted) triples")
 INVALID = ["", "!!", "e", "en-", "-US", "en--US", "toolonglanguage", "en-US-", "en_US!", "12", "é", "en-Latn-US-x", "*"]
@@ -43,6 +43,13 @@ def universe(locs, rng):
     return (head + rest)[:24]
 
 
+def spaced(rng, t):
+    """an entry as a header list may hand it over: white space before and / or after the tag"""
+    if not rng.chance(1, 6):
+        return t
+    return rng.pick(["", " ", "\t", "  "]) + t + rng.pick([" ", "\t", " \t ", "", "\n"])
+
+
 def intern_all(objs):
     table = {}
 
@@ -74,6 +81,7 @@ def run(ctx):
         {"set": "C", "accepted": ["zh-Hant-HK", "ca-ES-valencia", "sr"]},
         {"set": "D", "accepted": ["xx", "es-MX", "pt-PT"]},
         {"set": "D", "accepted": []},
+        {"set": "A", "accepted": ["fr ", " en-US"]}, {"set": "A", "accepted": ["xx", " fr\t", "en-US"]},     # white space around entries
     ]
     cases += corpus
     for s in SETS:
@@ -82,7 +90,7 @@ def run(ctx):
         if ctx.quick:
             for _ in range(ctx.budget(900, 0)):
                 k = rng.weighted([(1, 0), (3, 1), (5, 2), (5, 3), (2, 4), (1, 6)])
-                acc = [rng.pick(u) if not rng.chance(1, 8) else rng.pick(INVALID) for _ in range(k)]
+                acc = [spaced(rng, rng.pick(u)) if not rng.chance(1, 8) else rng.pick(INVALID) for _ in range(k)]
                 c = {"set": s, "accepted": acc}
                 if rng.chance(1, 3):
                     c["avail"] = rng.sample(list(range(n)), rng.range(1, n))
@@ -93,7 +101,7 @@ def run(ctx):
                     cases.append({"set": s, "accepted": list(acc)})
             for _ in range(6000):
                 k = rng.range(1, 6)
-                acc = [rng.pick(u) if not rng.chance(1, 6) else rng.pick(INVALID) for _ in range(k)]
+                acc = [spaced(rng, rng.pick(u)) if not rng.chance(1, 6) else rng.pick(INVALID) for _ in range(k)]
                 cases.append({"set": s, "accepted": acc, "avail": rng.sample(list(range(n)), rng.range(1, n))})
     if not ctx.quick:
         ctx.extra["exhaustive"] = False
